@@ -102,7 +102,8 @@ CUSTOM_NAMES = {
 INDEX_SENSITIVE = {"whole_type", "i8_many_before_later", "n255_holes", "n256_gapless", "n257_holes", "gapless_from_min",
                    "gapless_to_max", "touch_min_max", "first_run_at_min", "neg_later_runs", "neg_many_runs",
                    "run_at_min_then_neg", "gapless_neg", "gapless_span0", "last_run_at_max", "narrow_limits_holes",
-                   "many_runs_uneven", "many_runs_uneven_neg", "across_narrow_umax", "many_runs_40"}
+                   "many_runs_uneven", "many_runs_uneven_neg", "across_narrow_umax", "many_runs_40", "span_alias",
+                   "span_alias_neg", "even_step_wide"}
 
 
 def catalogue_cases(ids: IdGen, tier: str, seed: int = 1):
@@ -546,6 +547,11 @@ def decorate(cfg: Config, rng: random.Random, decl):
         if f in ("iter", "names") and rng.random() < 0.4:
             p["struct_name"] = "My" + ("Iter" if f == "iter" else "Names")
         cfg.feats[f] = p
+    if rng.random() < 0.6:
+        # the order in which features are listed (and so which attribute they land in) is free
+        items = list(cfg.feats.items())
+        rng.shuffle(items)
+        cfg.feats = dict(items)
     ntok = len(cfg.feature_tokens())
     if ntok >= 2 and rng.random() < 0.5:
         a = rng.randint(1, ntok - 1)
@@ -575,9 +581,7 @@ def cfg_corpus(tier: str, seed: int):
             if cfg is not None:
                 add(d, cfg, "single", atoms=[atom])
         # pairs
-        pairs = list(itertools.combinations(ATOMS, 2))
-        if tier == "quick":
-            pairs = rng.sample(pairs, 90)
+        pairs = list(itertools.combinations(ATOMS, 2))  # all pairs in both tiers: the build is cheap
         for a, b in pairs:
             cfg = config_from_atoms([a, b], d)
             if cfg is not None:
@@ -632,14 +636,29 @@ def cfg_corpus(tier: str, seed: int):
             grp = "split:%d:%d" % (di, k)
             add(d, joined, "split", split_group=grp)
             ntok = len(joined.feature_tokens())
-            for variant in range(2):
+            for variant in range(4):
                 sp = legalize(cfg_all(t), d)
-                if variant == 0:
+                if variant >= 2:
+                    # reversed / shuffled feature order: e.g. `range` in an attribute before the one with `iter`
+                    items = list(sp.feats.items())
+                    if variant == 2:
+                        items.reverse()
+                    else:
+                        rng.shuffle(items)
+                    sp.feats = dict(items)
+                if variant % 2 == 0:
                     sp.split = [1] * (ntok - 1)
                 else:
                     a = rng.randint(1, ntok - 2)
                     sp.split = [a, rng.randint(1, ntok - a - 1)]
-                add(d, sp, "split", split_group=grp)
+                if variant >= 2:
+                    # compared only with the joined list in the *same* order (that is what the documentation promises)
+                    jo = legalize(cfg_all(t), d)
+                    jo.feats = dict(sp.feats)
+                    add(d, jo, "split", split_group="%s:o%d" % (grp, variant))
+                    add(d, sp, "split", split_group="%s:o%d" % (grp, variant))
+                else:
+                    add(d, sp, "split", split_group=grp)
     per = 60 if tier == "quick" else 150
     return split_crates("cfg", cases, per)
 
